@@ -109,6 +109,32 @@ def exitProp (trace : List (Rec × List Rec)) : Option String :=
         | none => none
         | some r => resultCheck x (r.flt "dealt") (r.flt "taken") (r.flt "av") (r.flts "cd") (r.flts "ct")
 
+/-- C02 on the battle driver's stream: in every turn that reaches its second phase the acting unit's gauge is
+reset exactly once, when its action ends — after the first phase (and the action, if any) and before the second
+phase's queue and modifiers run — and the reset names the acting unit.  Gauge operations of the second phase
+therefore work on the reset gauge. -/
+def turnResetProp (trace : List (Rec × List Rec)) : Option String :=
+  forRuns trace fun _ obs => Id.run do
+    if outcome obs == "capped" then return none
+    let mut active : Int := -1
+    let mut inTurn := false
+    let mut resets := 0
+    let mut phase2 := false
+    for r in obs do
+      if r.name == "TurnStart" then
+        active := r.int "active"; inTurn := true; resets := 0; phase2 := false
+      else if r.name == "TurnReset" then
+        if !inTurn then return some "a gauge reset outside a turn"
+        if phase2 then return some s!"the gauge of unit {r.int "t"} was reset after the second phase had begun, not when the action ended"
+        if r.int "t" != active then return some s!"the turn of unit {active} reset the gauge of unit {r.int "t"}"
+        resets := resets + 1
+        if resets > 1 then return some s!"the gauge of unit {active} was reset {resets} times in one turn"
+      else if r.name == "Phase2Start" then
+        if inTurn && resets != 1 then return some s!"the second phase of unit {active}'s turn began with {resets} gauge resets (the action's end resets it once)"
+        phase2 := true
+      else if r.name == "TurnEnd" then inTurn := false
+    return none
+
 def isDecisionRec (r : Rec) : Bool :=
   r.name == "ActionStart" || r.name == "SPChange" || r.name == "pick" || r.name == "runerr" || r.name == "result" ||
   (r.name == "EnergyChange" && r.flt "new" == 0)
